@@ -2,8 +2,9 @@
 //
 // mode c04: a scripted SourceReader (several splits, records with ids), a fake key-by handler whose
 // KeyEventBatch calls complete in an order the harness controls (gates, no sleeps), recording fake operators
-// with harness-controlled back-pressure, batch sizes 0..n, time-outs realised by a harness timer (callbacks fire
-// when the script says so; Stop never comes in time, which is a legal behaviour of time.AfterFunc), by the real
+// with harness-controlled back-pressure, batch sizes 0..n, time-outs realised by one harness timer per batcher (the
+// script says when a timer expires and when its callback runs - at once or late, after the batch was handed out on
+// size and the next one started; Stop cancels only what has not expired, like time.AfterFunc), by the real
 // SystemTimer with a tiny delay, or absent (delay 0). Between two script steps the harness waits until every
 // goroutine of the process is blocked (a barrier, not a sleep), so the stimuli are applied in a reproducible order;
 // what remains nondeterministic (Go's select among ready channels, goroutine interleaving inside one step) only
@@ -96,7 +97,7 @@ type recJ struct {
 	Keys  []string `json:"keys"` // the key-by result: one keyed event per entry (may be empty)
 }
 type opJ struct {
-	Op    string `json:"op"` // read | barrier | tick | fire (which: all|new|old) | relkb | holdop | relop
+	Op    string `json:"op"` // read | barrier | tick | fire / expire / deliver (which: all|new|old) | relkb | holdop | relop
 	Recs  []recJ `json:"recs,omitempty"`
 	ID    uint64 `json:"id,omitempty"`
 	I     int    `json:"i,omitempty"`
@@ -281,63 +282,126 @@ func (h *handler) open() bool {
 	return h.release("all")
 }
 
-// ftimer: a clocks.Timer shared by all batchers of the runner (the runner hands its EventBatcherParams, Timer
-// included, to the key-by batcher and to every operator batcher). A callback fires when the script says so; Stop
-// never cancels (time.AfterFunc's callback may already be running when Stop is called).
-type ftimer struct {
-	mu    sync.Mutex
-	auto  bool
-	pend  []func()
-	sets  int
-	fired int
+// treg / ptimer: one clocks.Timer per batcher (the key-by batcher and every operator batcher, as each has its own
+// SystemTimer in production; installed through the hook VerifSetBatchTimers). A timer has one slot like time.AfterFunc:
+// Set arms it (replacing what was armed), Stop disarms it. The script decides when a timer EXPIRES: the armed callback is
+// committed (taken out of the slot: Stop can no longer cancel it) and is DELIVERED (run on its own goroutine) either at once
+// (op fire) or later (ops expire ... deliver): the late callback of a batch that has meanwhile been handed out on size.
+type treg struct {
+	mu        sync.Mutex
+	auto      bool
+	timers    []*ptimer
+	clock     int // orders the Set calls
+	committed []func()
+	sets      int
+	expired   int
+	late      int // callbacks delivered by a deliver op (after having been committed by an earlier op)
+}
+type ptimer struct {
+	reg   *treg
+	slot  func()
+	setAt int
 }
 
-func (t *ftimer) Set(d time.Duration, do func()) {
-	t.mu.Lock()
-	t.sets++
-	if t.auto {
-		t.fired++
+func (g *treg) mk() *ptimer {
+	g.mu.Lock()
+	defer g.mu.Unlock()
+	t := &ptimer{reg: g}
+	g.timers = append(g.timers, t)
+	return t
+}
+func (t *ptimer) Set(d time.Duration, do func()) {
+	g := t.reg
+	g.mu.Lock()
+	g.sets++
+	g.clock++
+	if g.auto { // end phase: every time-out expires right away
+		g.expired++
+		g.mu.Unlock()
 		go do()
-	} else {
-		t.pend = append(t.pend, do)
+		return
 	}
-	t.mu.Unlock()
+	t.slot = do
+	t.setAt = g.clock
+	g.mu.Unlock()
 }
-func (t *ftimer) Stop() {}
-// fireOne fires only the most recently (newest) or the least recently set callback; the others stay pending, which is
-// the behaviour of a timer whose Stop came in time for them or whose delay has not elapsed yet.
-func (t *ftimer) fireOne(newest bool) int {
-	t.mu.Lock()
-	if len(t.pend) == 0 {
-		t.mu.Unlock()
-		return 0
-	}
-	var f func()
-	if newest {
-		f = t.pend[len(t.pend)-1]
-		t.pend = t.pend[:len(t.pend)-1]
-	} else {
-		f = t.pend[0]
-		t.pend = t.pend[1:]
-	}
-	t.fired++
-	t.mu.Unlock()
-	go f()
-	return 1
+func (t *ptimer) Stop() {
+	t.reg.mu.Lock()
+	t.slot = nil
+	t.reg.mu.Unlock()
 }
-func (t *ftimer) fireAll(auto bool) int {
-	t.mu.Lock()
-	p := t.pend
-	t.pend = nil
-	if auto {
-		t.auto = true
+
+// expire commits armed callbacks (which: "" = all, new = the most recently armed, old = the least recently armed) and
+// returns them.
+func (g *treg) expire(which string) []func() {
+	g.mu.Lock()
+	defer g.mu.Unlock()
+	var sel []*ptimer
+	for _, t := range g.timers {
+		if t.slot == nil {
+			continue
+		}
+		switch which {
+		case "new":
+			if len(sel) == 0 || t.setAt > sel[0].setAt {
+				sel = []*ptimer{t}
+			}
+		case "old":
+			if len(sel) == 0 || t.setAt < sel[0].setAt {
+				sel = []*ptimer{t}
+			}
+		default:
+			sel = append(sel, t)
+		}
 	}
-	t.fired += len(p)
-	t.mu.Unlock()
-	for _, f := range p {
+	var out []func()
+	for _, t := range sel {
+		out = append(out, t.slot)
+		t.slot = nil
+		g.expired++
+	}
+	return out
+}
+func (g *treg) commit(fs []func()) {
+	g.mu.Lock()
+	g.committed = append(g.committed, fs...)
+	g.mu.Unlock()
+}
+
+// deliver runs committed callbacks (which as above; in order of commitment).
+func (g *treg) deliver(which string) int {
+	g.mu.Lock()
+	var fs []func()
+	switch {
+	case len(g.committed) == 0:
+	case which == "new":
+		fs = []func(){g.committed[len(g.committed)-1]}
+		g.committed = g.committed[:len(g.committed)-1]
+	case which == "old":
+		fs = []func(){g.committed[0]}
+		g.committed = g.committed[1:]
+	default:
+		fs = g.committed
+		g.committed = nil
+	}
+	g.late += len(fs)
+	g.mu.Unlock()
+	for _, f := range fs {
 		go f()
 	}
-	return len(p)
+	return len(fs)
+}
+
+// drain: from now on every time-out expires and is delivered at once; everything armed or committed so far too.
+func (g *treg) drain() {
+	g.mu.Lock()
+	g.auto = true
+	g.mu.Unlock()
+	fs := g.expire("")
+	g.deliver("")
+	for _, f := range fs {
+		go f()
+	}
 }
 
 type logItem struct {
@@ -442,6 +506,7 @@ type observed struct {
 	Unread    int       `json:"unread_chunks"`
 	KBOrder   []int     `json:"kb_completion_order"`
 	TimerSets int       `json:"timer_sets"`
+	Late      int       `json:"late_callbacks"`
 	Races     int       `json:"select_races"`
 	TimedOut  bool      `json:"timed_out"`
 }
@@ -450,7 +515,7 @@ func runCase(p params, ops []opJ) (*observed, error) {
 	if p.NOps < 1 || p.NOps > 16 || p.KGC < p.NOps || p.KGC > 4096 || p.MaxSize < 0 || p.MaxSize > 64 {
 		return nil, fmt.Errorf("bad params %+v", p)
 	}
-	ft := &ftimer{}
+	ft := &treg{}
 	h := &handler{gate: p.KBGate}
 	rd := &reader{inbox: make(chan *chunk, len(ops)*2+8), ticks: make(chan time.Time, 1), seen: map[uint64]bool{}}
 	fops := make([]*fop, p.NOps)
@@ -462,8 +527,7 @@ func runCase(p params, ops []opJ) (*observed, error) {
 	bp := batching.EventBatcherParams{MaxSize: p.MaxSize}
 	switch p.Timer {
 	case "fake":
-		bp.Timer = ft
-		bp.MaxDelay = time.Hour
+		bp.MaxDelay = time.Hour // the timers are installed after HandleDeploy, one per batcher
 	case "system":
 		d := p.DelayUS
 		if d < 1 {
@@ -494,6 +558,9 @@ func runCase(p params, ops []opJ) (*observed, error) {
 	if err := sr.HandleDeploy(ctx, &workerpb.DeploySourceRunnerRequest{Operators: nodes, KeyGroupCount: int32(p.KGC), Sources: []*jobconfigpb.Source{{}}}); err != nil {
 		cancel()
 		return nil, err
+	}
+	if p.Timer == "fake" {
+		sr.VerifSetBatchTimers(func(int) clocks.Timer { return ft.mk() })
 	}
 	if err := sr.HandleAssignSplits([]*workerpb.SourceSplit{{SplitId: "s0"}, {SplitId: "s1"}, {SplitId: "s2"}}); err != nil {
 		cancel()
@@ -539,15 +606,14 @@ func runCase(p params, ops []opJ) (*observed, error) {
 				expected += p.NOps
 				rd.inbox <- &chunk{nop: true}
 			}
-		case "fire":
-			switch op.Which {
-			case "new":
-				ft.fireOne(true)
-			case "old":
-				ft.fireOne(false)
-			default:
-				ft.fireAll(false)
+		case "fire": // expire and deliver at once
+			for _, f := range ft.expire(op.Which) {
+				go f()
 			}
+		case "expire": // the time-out expires, its callback is on its way but has not run yet
+			ft.commit(ft.expire(op.Which))
+		case "deliver": // a callback committed earlier runs now (late)
+			ft.deliver(op.Which)
 		case "relkb":
 			h.release(op.Which)
 		case "relop":
@@ -583,7 +649,7 @@ func runCase(p params, ops []opJ) (*observed, error) {
 	for _, f := range fops {
 		f.open()
 	}
-	ft.fireAll(true)
+	ft.drain()
 	quiesce()
 	if p.Timer == "system" {
 		// real timers: wait (bounded) until everything expected has arrived; a correct pipeline always gets there
@@ -621,6 +687,7 @@ func runCase(p params, ops []opJ) (*observed, error) {
 	h.mu.Unlock()
 	ft.mu.Lock()
 	obs.TimerSets = ft.sets
+	obs.Late = ft.late
 	ft.mu.Unlock()
 
 	// teardown
@@ -654,7 +721,7 @@ func (eng) CoqRequire(mode string) string  { return "From Coq Require Import Lis
 func (eng) CoqCaseType(mode string) string { return "Check_runner.case" }
 func (eng) CoqRun(mode string) string      { return "Check_runner.run" }
 func (eng) Rule(mode string) string {
-	return "one real SourceRunner per case: 1..4 operators, key-group counts from the operator count to 64, MaxSize 0..6, time-outs none/harness-fired/real (20us..2ms), 3..40 records over 1..3 splits with 0..3 keyed events each from a small key alphabet, barriers and watermark ticks at generated positions, gated KeyEventBatch completions released oldest/newest first, gated operators. Non-trivial: at least two operators, at least 4 keyed events, and a key that occurs in two records of one split."
+	return "one real SourceRunner per case: 1..4 operators, key-group counts from the operator count to 64, MaxSize 0..6, time-outs none / one harness timer per batcher (expiry and - possibly late - delivery of the callback scripted, Stop cancels what has not expired) / real (20us..2ms), 3..40 records over 1..3 splits with 0..3 keyed events each from a small key alphabet, barriers and watermark ticks at generated positions, gated KeyEventBatch completions released oldest/newest first, gated operators. Non-trivial: at least two operators, at least 4 keyed events, and a key that occurs in two records of one split."
 }
 
 func coqMarker(k string, id uint64) string {
@@ -769,6 +836,7 @@ func (eng) Execute(mode string, c *hx.Case) (*hx.Result, error) {
 	add(ntick > 0, "tick")
 	add(sameKey, "same_split_same_key_repeats")
 	add(obs.Unread > 0, "unread_chunks")
+	add(obs.Late > 0, "late_callback_delivered")
 	add(p.KBGate, "kbgate")
 	add(p.OpGate, "opgate")
 	add(obs.TimedOut, "timed_out")
@@ -853,8 +921,12 @@ func genCase(r *hx.Rand, big bool) *hx.Case {
 			bar++
 		case x < 12:
 			ops = append(ops, hx.Op(opJ{Op: "tick"}))
-		case x < 15:
+		case x < 13:
 			ops = append(ops, hx.Op(opJ{Op: "fire", Which: hx.Pick(r, []string{"", "", "new", "old"})}))
+		case x < 14:
+			ops = append(ops, hx.Op(opJ{Op: "expire", Which: hx.Pick(r, []string{"", "new", "old"})}))
+		case x < 15:
+			ops = append(ops, hx.Op(opJ{Op: "deliver", Which: hx.Pick(r, []string{"", "new", "old"})}))
 		case x < 18:
 			ops = append(ops, hx.Op(opJ{Op: "relkb", Which: hx.Pick(r, []string{"old", "new", "new", "all"})}))
 		case x < 19:
@@ -911,6 +983,39 @@ func genCase(r *hx.Rand, big bool) *hx.Case {
 			ops = append(ops, hx.Op(opJ{Op: "relop", I: i}))
 		}
 	}
+	// the late callback: the time-out of an operator batch expires (its callback is committed), the batch is filled and
+	// handed out on size anyway, a further record starts the next batch, and only then the stale callback is delivered to
+	// the sender goroutine; nothing else arrives, so the next batch can only leave by its own time-out
+	if eff := p.MaxSize; p.Timer == "fake" && eff >= 2 && r.Chance(1, 2) {
+		push := func() { // let what sits in the key-by batcher through
+			ops = append(ops, hx.Op(opJ{Op: "fire"}), hx.Op(opJ{Op: "relkb", Which: "all"}))
+		}
+		for i := 0; i < p.NOps; i++ {
+			ops = append(ops, hx.Op(opJ{Op: "relop", I: i}))
+		}
+		push()
+		push() // batchers are empty now
+		k := alphabet[r.Intn(nalpha)]
+		sp := r.Intn(nsplits)
+		one := func(n int) {
+			ks := make([]string, n)
+			for i := range ks {
+				ks[i] = k
+			}
+			ops = append(ops, hx.Op(opJ{Op: "read", Recs: []recJ{{ID: id, Split: sp, Keys: ks}}}))
+			id++
+			push()
+		}
+		one(1)
+		ops = append(ops, hx.Op(opJ{Op: "expire"}))
+		one(eff - 1)
+		one(1)
+		ops = append(ops, hx.Op(opJ{Op: "deliver"}))
+		if eff >= 3 && r.Bool() { // a barrier behind the stranded record (with MaxSize 2 it would fill the batch)
+			ops = append(ops, hx.Op(opJ{Op: "barrier", ID: bar}))
+			bar++
+		}
+	}
 	pm := map[string]any{}
 	b, _ := json.Marshal(p)
 	json.Unmarshal(b, &pm)
@@ -923,9 +1028,6 @@ func (eng) Generate(mode, tier string, r *hx.Rand) []*hx.Case {
 	if tier == "thorough" {
 		n, nbig = 3000, 500
 	}
-	// hx.NewRand(seed) streams for nearby seeds are shifts of one another (state = seed*golden + c, step = golden);
-	// re-rooting on the first output decorrelates them
-	r = hx.NewRand(r.U64())
 	var cs []*hx.Case
 	for i := 0; i < n; i++ {
 		cs = append(cs, genCase(r.Fork(), false))
